@@ -258,6 +258,32 @@ def antimeridian_edge_probes(mon: Monitor) -> None:
             mon.obs["antimeridian_edge_probes"] += 1
 
 
+def drive_oneoff(mon: Monitor, rng: random.Random, n: int) -> None:
+    """A loader's life: a stream of rasters, each in its own made-up local projection (per-tile transverse Mercator / LAEA), planned into a lon/lat grid and back, the
+    CRS objects dropped afterwards.  Whatever the library caches along the way (parsed CRSs, transformers keyed by object identity), plan number 300 is judged like plan
+    number 1 (post_roi's oracle builds its own transformer from the WKT)."""
+    import gc
+
+    from affine import Affine
+    from odc.geo.geobox import GeoBox
+    from odc.geo.overlap import compute_reproject_roi
+
+    for i in range(n):
+        lon0, lat0 = rng.uniform(-160, 160), rng.uniform(-60, 60)
+        proj = rng.choice(["+proj=tmerc +lat_0=0 +lon_0={lon:.3f} +k=0.9996 +x_0=500000 +y_0=0 +datum=WGS84 +units=m +no_defs", "+proj=laea +lat_0={lat:.3f} +lon_0={lon:.3f} +x_0=0 +y_0=0 +datum=WGS84 +units=m +no_defs"]).format(lon=lon0, lat=lat0)
+        tm = "tmerc" in proj
+        y_c = lat0 * 110_574.0 if tm else 0.0
+        x_c = 500_000.0 if tm else 0.0
+        src = GeoBox((40, 50), Affine(1000.0, 0, x_c - 25_000.0, 0, -1000.0, y_c + 20_000.0), proj)
+        dst = GeoBox((48, 64), Affine(0.01, 0, lon0 - 0.3 + rng.uniform(-0.1, 0.1), 0, -0.01, lat0 + 0.25 + rng.uniform(-0.1, 0.1)), "EPSG:4326")
+        a, b = (src, dst) if i % 3 else (dst, src)
+        call(compute_reproject_roi, a, b)
+        del src, dst, a, b
+        if i % 16 == 0:
+            gc.collect()
+    mon.obs["one_off_crs_plans"] += n
+
+
 def run(mon: Monitor, tier: str, seed: int, shard: int, nshards: int) -> None:
     install(mon)
     try:
@@ -268,6 +294,7 @@ def run(mon: Monitor, tier: str, seed: int, shard: int, nshards: int) -> None:
             reverse_curvature_probes(mon)
             antimeridian_edge_probes(mon)
         drive(mon, rng, 3500 if q else 60000, 500 if q else 8000)
+        drive_oneoff(mon, random.Random(seed * 1000 + shard + 103), 300 if q else 1200)
         mon.notes["indirect"] = "compute_reproject_roi has no caller inside odc-geo at this commit (it is public API for loaders); only direct calls are observed"
         for pt, n in [("compute_reproject_roi", 2500), ("compute_reproject_roi|same-crs|contained", 100), ("compute_reproject_roi|same-crs|partial", 300), ("compute_reproject_roi|same-crs|disjoint", 100),
                       ("compute_reproject_roi|same-crs|touching", 20), ("compute_reproject_roi|cross-crs|partial", 50), ("compute_reproject_roi|cross-crs|contained", 10),
